@@ -101,6 +101,26 @@ def run(ctx):
             jobs.append(dict(fn=fn, prop=PROP, R0=it["R0"], script=[list(x) for x in it["script"]],
                              itr=(it["iters"] + 0.5) / per_itr, expect=dict(R=it["R"], eff=it["eff"]),
                              src="model-behaviour"))
+    # "all seeds" includes long runs of unlucky draws: the four-node picker redraws until its four
+    # nodes are distinct (for n = 4 nine draws in ten are not).  Scripted behaviours are replayed with
+    # 150 / 400 / 700 non-distinct quadruples in front of their first pick - invisible to the L2
+    # machine (its Pick chooses four distinct nodes), so the predicted result is unchanged.  (The
+    # picker redraws by recursion: beyond about 900 redraws in a row python's recursion limit ends the
+    # call - probability below 1e-40 per call at n = 4 - so the prefixes stay below that.)
+    urng = random.Random(ctx.seed * 17 + 11)
+    cands = [j for j in jobs if any(it[0] == "q" for it in j["script"])]
+    urng.shuffle(cands)
+    for j in cands[:(45 if ctx.quick else 400)]:
+        n = len(j["R0"])
+        first = next(t for t, it in enumerate(j["script"]) if it[0] == "q")
+        pref = []
+        for _ in range(urng.choice([150, 400, 700])):
+            q = [urng.randint(1, n) for _ in range(4)]
+            while len(set(q)) == 4:
+                q[urng.randrange(4)] = q[urng.randrange(4)]
+            pref.append(["q"] + q)
+        jobs.append(dict(j, script=j["script"][:first] + pref + j["script"][first:],
+                         src="model-behaviour+unlucky-prefix"))
     nb = len(jobs)
     rng = random.Random(ctx.seed * 31 + 7)
     for t in range(160 if ctx.quick else 3000):
